@@ -57,6 +57,17 @@ class HugeMatrix : public Engine {
         uint64_t rows = (1ULL << half) + r.below((1ULL << half) / 4 + 1) + (r.chance(1, 2) ? 1 : 0);
         if (r.chance(1, 3)) rows = std::max<uint64_t>(3, rows >> r.range(1, half > 4 ? half - 3 : 1));
         uint64_t cols = cells / rows + 1;
+        if (r.chance(1, 4)) {
+            // a few very long rows: column counts around the limits of their header width
+            static const uint64_t edges[] = {1ULL << 31, (1ULL << 31) + 5, (1ULL << 32) - 1, (1ULL << 31) - 1, 1ULL << 32,
+                                             1ULL << 24, (1ULL << 24) - 1, 1ULL << 16, (1ULL << 32) + 3, 3ULL << 30};
+            cols = r.pick(edges) + (r.chance(1, 2) ? 0 : r.below(9));
+            rows = cols > (1ULL << 31) + 16 ? 2 : r.range(2, 4);
+            if ((__uint128_t)rows * cols * cell_bits(kind, ew) > (9ULL << 30)) { // keep it mappable: bits
+                kind = "bit";
+                ew = 0;
+            }
+        }
         // keep the mapping below ~1.1 GiB
         while ((__uint128_t)rows * cols * cell_bits(kind, ew) > (9ULL << 30)) cols = cols * 3 / 4 + 1;
         p.set_knob("rows", std::to_string(rows));
